@@ -1,6 +1,83 @@
-(* C04 - stub, replaced below *)
-From Coq Require Import List NArith.
-From LA Require Import FS.SanitizeDefs.
+(* C04 - Secure extraction never touches anything outside the target directory.
+   Property theorems only; each is closed by [exact] of a lemma of FS/SanitizeProofs.v or
+   FS/FsSecProofs.v, or is a [vm_compute] witness.
+
+   Model: FS/SanitizeDefs.v (cleanup_pathname_fsobj, character level), FS/FsModel.v (POSIX-like
+   file system with symlink resolution, ELOOP, NAME_MAX/PATH_MAX, hard links as shared inode
+   numbers), FS/RestoreDefs.v (check_symlinks_fsobj, restore_entry, create_filesystem_object,
+   create_dir, deferred fix-ups, close).  The model is tied to archive_write_disk_posix.c by
+   props/C04.py (exhaustive sanitiser correspondence, extraction histories in a chroot sandbox).
+
+   TWO statements of the property are REFUTED on the faithful model, with witnesses that the real
+   code reproduces (see C04_run_confined_refuted and C04_step_confined_refuted below). *)
+From Coq Require Import List ZArith NArith Bool.
+From LA Require Import Base.Val Gen.FsSecConsts FS.SanitizeDefs FS.SanitizeProofs FS.FsModel FS.FsLemmas
+                       FS.RestoreDefs FS.FsSecProofs FS.FsSecRun.
 Import ListNotations.
-Example C04_stub : cleanup_pathname 0 [97;47;47;98] = ClOk [97;47;98].
-Proof. reflexivity. Qed.
+Local Open Scope N_scope.
+
+(* ------------------------------------------------------------------------------------------ *)
+(* (a0) the character-level transcription computes exactly this, on ALL strings and flags:
+        split on '/', drop the empty and "." components, refuse empty / absolute / ".." *)
+Theorem C04_cleanup_is_spec : forall fl p, cleanup_pathname fl p = cleanup_spec fl p.
+Proof. exact cleanup_equiv. Qed.
+Print Assumptions C04_cleanup_is_spec.
+
+(* (a) an accepted name is not empty; it is "." or "/" or the '/'-join of the real components of
+       the input (none empty, none ".", none containing '/'), prefixed by '/' exactly when the
+       input was absolute; with NODOTDOT no component of the input is ".."; with NOABSOLUTEPATHS
+       neither input nor output starts with '/'. *)
+Theorem C04_cleanup_sound : forall fl p q,
+  cleanup_pathname fl p = ClOk q ->
+  q <> [] /\
+  ((real_comps p = [] /\ q = if is_abs p then [SLASH] else [DOT]) \/
+   (real_comps p <> [] /\ q = (if is_abs p then [SLASH] else []) ++ join (real_comps p))) /\
+  Forall (fun c => c <> [] /\ c <> [DOT] /\ ~ In SLASH c) (real_comps p) /\
+  (has fl EXTRACT_SECURE_NODOTDOT = true -> ~ In [DOT; DOT] (split p)) /\
+  (has fl EXTRACT_SECURE_NOABSOLUTEPATHS = true -> is_abs p = false /\ is_abs q = false).
+Proof. exact cleanup_sound. Qed.
+Print Assumptions C04_cleanup_sound.
+
+(* (b) the three refusals, exactly *)
+Theorem C04_cleanup_refusals : forall fl p,
+  (cleanup_pathname fl p = ClEmpty <-> p = []) /\
+  (cleanup_pathname fl p = ClAbsolute <->
+     p <> [] /\ is_abs p = true /\ has fl EXTRACT_SECURE_NOABSOLUTEPATHS = true) /\
+  (cleanup_pathname fl p = ClDotDot <->
+     p <> [] /\ (is_abs p && has fl EXTRACT_SECURE_NOABSOLUTEPATHS) = false /\
+     has fl EXTRACT_SECURE_NODOTDOT = true /\ In [DOT; DOT] (split p)).
+Proof. exact cleanup_refusals. Qed.
+Print Assumptions C04_cleanup_refusals.
+
+(* ------------------------------------------------------------------------------------------ *)
+(* (c) check_symlinks on a cleaned relative name q, from the target T, with SECURE_SYMLINKS:
+       whatever it answers, the file system changed only below T ([ext]: everything not under T
+       is identical, no outside inode got a name inside, no symlink was added); when it answers
+       OK every existing proper prefix of q is a real directory ([safe]) and - for an entry name -
+       the last component is not a symlink any more. *)
+Theorem C04_walk_inside : forall T O fl ln D q nm fs s fs',
+  has fl EXTRACT_SECURE_SYMLINKS = true ->
+  ctx T O fs -> relname nm q -> cleanq q -> (0 < p_len nm)%nat ->
+  check_symlinks fl ln fs T nm = (s, fs') ->
+  ext T O D false fs fs' /\ (s = SOk -> nfacts T q fs' /\ (ln = false -> nfinal T q fs')).
+Proof. exact check_symlinks_spec. Qed.
+Print Assumptions C04_walk_inside.
+
+(* (d) ONE ENTRY.  T = the directory in which extraction started (cwd), O = a set of inode
+   numbers containing every inode that occurs outside T.  Invariant [Inv]: cwd = T is a
+   directory, no object under T carries an inode of O (no hard link into the outside), fresh
+   inode numbers are not in O.  For EVERY file system state satisfying it, every flag set with
+   the three SECURE bits and EVERY entry (file, dir, symlink, hard link, fifo; any name, any
+   link target) - except hard-link entries that carry data (refuted below) and names of
+   PATH_MAX bytes or more after cleaning (edit_deep_directories is modelled and checked by the
+   correspondence, but not covered by this proof) - archive_write_header + data +
+   archive_write_finish_entry leave everything that is not under T exactly as it was
+   (structure, contents, modes, mtimes, link counts), leave cwd and umask as they were and
+   re-establish the invariant. *)
+Theorem C04_step_confined_partial : forall T O fl e st rr st',
+  secure fl -> hl_ok e -> short fl e -> Inv T O st ->
+  restore fl st e = (rr, st') ->
+  prune T (root (st_fs st')) = prune T (root (st_fs st)) /\
+  st_umask st' = st_umask st /\ Inv T O st'.
+Proof. exact restore_confined. Qed.
+Print Assumptions C04_step_confined_partial.
